@@ -517,7 +517,29 @@ def check_capture_analysis(spec):
     b = {gr.name: sorted(v.name for v in s) for gr, s in want.items()}
     if a != b:
         return [("implicit_usage_differs_from_brute_force", (a, b))]
-    return []
+    # the analysis started at a nested graph (its own captures come from beyond the analysed root), and at a function
+    # wrapping the graph: the same sets, restricted to the graphs below the starting point
+    out = []
+    for sub in want:
+        try:
+            got_sub = ir.analysis.analyze_implicit_usage(sub)
+        except Exception as e:  # noqa: BLE001
+            out.append(("implicit_usage_raises_on_a_nested_root", f"{sub.name}: {type(e).__name__}: {e}"[:120]))
+            break
+        below = {id(x) for x in sub.subgraphs()}
+        exp = {gr.name: sorted(v.name for v in s_) for gr, s_ in want.items() if id(gr) in below}
+        if {gr.name: sorted(v.name for v in s_) for gr, s_ in got_sub.items()} != exp:
+            out.append(("implicit_usage_of_a_nested_root_differs", (sub.name, {gr.name: sorted(v.name for v in s_) for gr, s_ in got_sub.items()}, exp)))
+            break
+    if not g.initializers:
+        try:
+            fn = ir.Function("local", "CaptureFn", "", graph=g, attributes=[])
+            got_fn = ir.analysis.analyze_implicit_usage(fn)
+            if {gr.name: sorted(v.name for v in s_) for gr, s_ in got_fn.items()} != b:
+                out.append(("implicit_usage_of_a_function_differs", ({gr.name: sorted(v.name for v in s_) for gr, s_ in got_fn.items()}, b)))
+        except Exception as e:  # noqa: BLE001
+            out.append(("implicit_usage_raises_on_a_function", f"{type(e).__name__}: {e}"[:120]))
+    return out
 
 
 def _capture_work(chunk):
